@@ -1,7 +1,156 @@
-//! C06 operations (op names start with `c06.`)
-#[allow(unused_imports)]
+//! C06 operations (op names start with `c06.`): comparison, equality, hashing, selection
 use crate::util::*;
+use core::cmp::Ordering;
+use crypto_bigint::subtle::{
+    Choice, ConditionallyNegatable, ConditionallySelectable, ConstantTimeEq, ConstantTimeGreater,
+    ConstantTimeLess, CtOption,
+};
+use crypto_bigint::{BoxedUint, ConstantTimeSelect, Int, Integer, Limb, Uint, Zero};
+use std::hash::{DefaultHasher, Hash, Hasher};
 
-pub fn dispatch(_op: &str, _a: &[&str]) -> Option<String> {
-    None
+fn ord(o: Ordering) -> &'static str {
+    match o {
+        Ordering::Less => "lt",
+        Ordering::Equal => "eq",
+        Ordering::Greater => "gt",
+    }
+}
+
+fn h<T: Hash>(t: &T) -> u64 {
+    let mut s = DefaultHasher::new();
+    t.hash(&mut s);
+    s.finish()
+}
+
+/// all routes must agree before anything is printed; a disagreement is reported as a distinct token
+fn agree(vals: &[String]) -> String {
+    if vals.iter().all(|v| *v == vals[0]) {
+        vals[0].clone()
+    } else {
+        format!("routes-differ:{}", vals.join("|"))
+    }
+}
+
+fn fixed<const N: usize>(op: &str, a: &[&str]) -> Option<String> {
+    Some(match (op, a) {
+        ("c06.u.cmp", [x, y]) => {
+            let (x, y) = (arg!(uint::<N>(x)), arg!(uint::<N>(y)));
+            let eq = agree(&[choice(x.ct_eq(&y)), bit(x == y), bit(!(x != y)), choice(!x.ct_ne(&y))]);
+            let lt = agree(&[choice(x.ct_lt(&y)), bit(x < y), bit(y > x)]);
+            let gt = agree(&[choice(x.ct_gt(&y)), bit(x > y), bit(y < x)]);
+            let le = agree(&[bit(x <= y), bit(y >= x)]);
+            let c = agree(&[ord(x.cmp(&y)).to_string(), ord(x.partial_cmp(&y).unwrap()).to_string(), ord(y.cmp(&x).reverse()).to_string()]);
+            format!("{eq} {lt} {gt} {le} {c} {}", ord(x.cmp_vartime(&y)))
+        }
+        ("c06.u.tests", [x]) => {
+            let x = arg!(uint::<N>(x));
+            let z = agree(&[choice(x.is_zero()), bit(x == Uint::<N>::ZERO)]);
+            let odd = choice(Integer::is_odd(&x));
+            let even = choice(Integer::is_even(&x));
+            let one = agree(&[bit(x == Uint::<N>::ONE), choice(x.ct_eq(&Uint::<N>::ONE))]);
+            format!("{z} {odd} {even} {one}")
+        }
+        ("c06.i.cmp", [x, y]) => {
+            let (x, y) = (arg!(int::<N>(x)), arg!(int::<N>(y)));
+            let eq = agree(&[choice(x.ct_eq(&y)), bit(x == y)]);
+            let lt = agree(&[choice(x.ct_lt(&y)), bit(x < y), bit(y > x)]);
+            let gt = agree(&[choice(x.ct_gt(&y)), bit(x > y), bit(y < x)]);
+            let c = agree(&[ord(x.cmp(&y)).to_string(), ord(x.partial_cmp(&y).unwrap()).to_string()]);
+            format!("{eq} {lt} {gt} {c} {}", ord(x.cmp_vartime(&y)))
+        }
+        ("c06.i.tests", [x]) => {
+            let x = arg!(int::<N>(x));
+            let z = agree(&[choice(Zero::is_zero(&x)), bit(x == Int::<N>::ZERO)]);
+            format!(
+                "{} {} {} {} {z}",
+                cchoice(x.is_negative()),
+                cchoice(x.is_positive()),
+                cchoice(x.is_min()),
+                cchoice(x.is_max())
+            )
+        }
+        ("c06.u.hash", [x, y]) => {
+            let (x, y) = (arg!(uint::<N>(x)), arg!(uint::<N>(y)));
+            if x == y { format!("1 {}", bit(h(&x) == h(&y))) } else { "0 -".into() }
+        }
+        ("c06.u.select", [x, y, c]) => {
+            let (x, y, c) = (arg!(uint::<N>(x)), arg!(uint::<N>(y)), arg!(tochoice(c)));
+            let sel = agree(&[uhex(&Uint::conditional_select(&x, &y, c)), uhex(&Uint::ct_select(&x, &y, c))]);
+            let mut t = x;
+            t.conditional_assign(&y, c);
+            let mut t2 = x;
+            t2.ct_assign(&y, c);
+            let asg = agree(&[uhex(&t), uhex(&t2)]);
+            let (mut p, mut q) = (x, y);
+            Uint::conditional_swap(&mut p, &mut q, c);
+            let (mut p2, mut q2) = (x, y);
+            Uint::ct_swap(&mut p2, &mut q2, c);
+            format!("{sel} {asg} {} {}", agree(&[uhex(&p), uhex(&p2)]), agree(&[uhex(&q), uhex(&q2)]))
+        }
+        ("c06.u.ctoption", [x, d, c]) => {
+            let (x, d, c) = (arg!(uint::<N>(x)), arg!(uint::<N>(d)), arg!(dec(c)));
+            // a ConstCtOption with a chosen `is_some` through the public API
+            let mk = || x.overflowing_shl(if c == 1 { 0 } else { Uint::<N>::BITS });
+            let o = mk();
+            let ct: CtOption<Uint<N>> = mk().into();
+            let opt: Option<Uint<N>> = mk().into();
+            let some = agree(&[cchoice(o.is_some()), bit(!bool::from(o.is_none())), bit(opt.is_some())]);
+            format!("{some} {} {} {}", uhex(&o.unwrap_or(d)), choice(ct.is_some()), uhex(&ct.unwrap_or(d)))
+        }
+        _ => return None,
+    })
+}
+
+pub fn dispatch(op: &str, a: &[&str]) -> Option<String> {
+    match (op, a) {
+        ("c06.w.cmp", [x, y]) => {
+            let (x, y) = (arg!(limb(x)), arg!(limb(y)));
+            let eq = agree(&[choice(x.ct_eq(&y)), bit(x == y), bit(x.eq_vartime(&y)), choice(!x.ct_ne(&y))]);
+            let lt = agree(&[choice(x.ct_lt(&y)), bit(x < y)]);
+            let gt = agree(&[choice(x.ct_gt(&y)), bit(x > y)]);
+            let c = agree(&[ord(x.cmp(&y)).into(), ord(x.partial_cmp(&y).unwrap()).into(), ord(x.cmp_vartime(&y)).into()]);
+            Some(format!("{eq} {lt} {gt} {c} {} {}", choice(x.is_odd()), choice(x.is_zero())))
+        }
+        ("c06.w.select", [x, y, c]) => {
+            let (x, y, c) = (arg!(limb(x)), arg!(limb(y)), arg!(tochoice(c)));
+            Some(lhex(Limb::conditional_select(&x, &y, c)))
+        }
+        ("c06.b.cmp", [na, x, nb, y]) => {
+            let x = arg!(boxed(x, arg!(dec(na))));
+            let y = arg!(boxed(y, arg!(dec(nb))));
+            let eq = agree(&[choice(x.ct_eq(&y)), bit(x == y)]);
+            let lt = agree(&[choice(x.ct_lt(&y)), bit(x < y)]);
+            let gt = agree(&[choice(x.ct_gt(&y)), bit(x > y)]);
+            let c = agree(&[ord(x.cmp(&y)).into(), ord(x.partial_cmp(&y).unwrap()).into()]);
+            Some(format!("{eq} {lt} {gt} {c}"))
+        }
+        ("c06.b.cmp_vartime", [n, x, y]) => {
+            let n = arg!(dec(n));
+            let (x, y) = (arg!(boxed(x, n)), arg!(boxed(y, n)));
+            Some(ord(x.cmp_vartime(&y)).to_string())
+        }
+        ("c06.b.hash", [na, x, nb, y]) => {
+            let x = arg!(boxed(x, arg!(dec(na))));
+            let y = arg!(boxed(y, arg!(dec(nb))));
+            Some(if x == y { format!("1 {}", bit(h(&x) == h(&y))) } else { "0 -".into() })
+        }
+        ("c06.b.select", [n, x, y, c]) => {
+            let n = arg!(dec(n));
+            let (x, y, c): (BoxedUint, BoxedUint, Choice) = (arg!(boxed(x, n)), arg!(boxed(y, n)), arg!(tochoice(c)));
+            let sel = BoxedUint::ct_select(&x, &y, c);
+            let mut t = x.clone();
+            t.ct_assign(&y, c);
+            let (mut p, mut q) = (x.clone(), y.clone());
+            BoxedUint::ct_swap(&mut p, &mut q, c);
+            let mut ng = x.clone();
+            ng.conditional_negate(c);
+            Some(format!("{} {} {} {} {}", bhexlen(&sel), bhexlen(&t), bhexlen(&p), bhexlen(&q), bhexlen(&ng)))
+        }
+        _ if (op.starts_with("c06.u.") || op.starts_with("c06.i.")) && !a.is_empty() => {
+            let n = arg!(dec(a[0]));
+            let rest = &a[1..];
+            with_n!(n, fixed, op, rest)
+        }
+        _ => None,
+    }
 }
